@@ -4,7 +4,7 @@ NOTES = ("All checks are model-based: explicit TLA+ specifications in spec/ chec
          "against trace specifications (see DESIGN.md). Exit 2 = machinery failure.")
 ENGINES = [
     {"name": "dav", "path": "harness/davcheck.py",
-     "serves_properties": ["C01", "C02", "C03", "C06", "C07", "C08", "C09", "C14", "C17"],
+     "serves_properties": ["C01", "C02", "C03", "C06", "C07", "C08", "C09", "C14", "C15", "C17"],
      "kind_free_text": "TLC exhaustive check of spec/DavMC.tla; TLC-simulated behaviours replayed on the real server; "
                        "random histories recorded and validated by TLC against spec/DavTrace.tla (+DavDeviations.tla)"},
 ]
@@ -16,7 +16,7 @@ TEXT = {
 
 def table(dav):
     checks = []
-    claimed = ["C01", "C02", "C03", "C06", "C07", "C08", "C09", "C14", "C17"]
+    claimed = ["C01", "C02", "C03", "C06", "C07", "C08", "C09", "C14", "C15", "C17"]
     for pid in claimed:
         checks.append(dav(pid, TEXT.get(pid, TEXT["C01"]),
                           "TLA+ model checking (TLC) + trace validation of recorded executions against the spec"))
